@@ -1757,6 +1757,7 @@ func (ex *Executor) SetupRedirects(pkg *ssa.Package) {
 		"errors.Is":         "verifModelErrorsIs",
 		"context.Cause":     "verifModelContextCause",
 		"sort.SliceStable":  "verifModelSliceStable",
+		"fmt.Fprintf":       "verifModelFprintf",
 		"sort.Slice":        "verifModelSliceStable",
 		"(*bytes.Reader).WriteTo": "verifModelReaderWriteTo",
 		"os.Stat":                 "verifModelStat",
